@@ -28,8 +28,24 @@ for d in sorted(glob.glob("/verif/seeded/*")):
             verdict = "exit 0 (property holds under this mutation)"
         else:
             verdict = "exit %s — MISSED" % r.get("exit")
-        res.append("%s: %s (%ds)" % (pid, verdict, r.get("wall_s", 0)))
+        extra = ""
+        if r.get("restricted_to_harnesses_matching"):
+            extra += ", only harnesses matching `%s`" % r["restricted_to_harnesses_matching"]
+        if r.get("tier") and r.get("tier") != "quick":
+            extra += ", %s tier" % r["tier"]
+        res.append("%s: %s (%ds%s)" % (pid, verdict, r.get("wall_s", 0), extra))
     rows.append("| %s | %s | %s | %s | %s |" % (name, ", ".join(m.get("breaks", [])), first.replace("|", "/"), "yes" if conf else "no", "; ".join(res) or "not run"))
 print("| mutation | breaks | what it needs | confirmed | quick checks run against it |")
 print("|---|---|---|---|---|")
 print("\n".join(rows))
+
+if __name__ == "__main__":
+    import sys
+    if len(sys.argv) > 1 and sys.argv[1] == "--splice":
+        # replace the results table in DESIGN.md (between the marker line and section 8)
+        p = "/verif/DESIGN.md"
+        t = open(p).read()
+        a = t.index("| mutation | breaks | what it needs | confirmed |")
+        b = t.index("## 8. Limits")
+        tbl = "| mutation | breaks | what it needs | confirmed | checks run against it |\n|---|---|---|---|---|\n" + "\n".join(rows) + "\n\n"
+        open(p, "w").write(t[:a] + tbl + t[b:])
